@@ -40,8 +40,8 @@ RULE = ("(template, substrate, direction, hydrogen mode) as in C03 (centre / ful
 EXHAUSTIVE = {"quick": False, "thorough": False}
 EXPLANATION = ("Theorems about the composed pipeline model (rule preparation -> matches by strategy -> pruning by rule automorphisms -> "
                "glue -> hydrogen stage): literal equivariance of every stage under renumbering (all strategies); set-level invariance of the "
-               "glued graphs under any rewriting (exhaustive strategy); comp <= all, BACKTRACK = COMPONENT when non-empty; pruning loses no "
-               "class. Correspondence: per writing and strategy, match counts and the multiset of glued ITS graphs are compared with the "
+               "glued graphs under any rewriting (every strategy; exhaustive strategy under every embedding cap); comp <= all, BACKTRACK = "
+               "COMPONENT when non-empty; pruning loses no class; a capped search returns everything or nothing. Correspondence: per writing and strategy, match counts and the multiset of glued ITS graphs are compared with the "
                "implementation before RDKit serialisation, theorem premises (side_okb) evaluated per writing; the metamorphic oracle "
                "compares the sets of standardised reactions across writings, strategies and repeated calls.")
 TRUSTED_BASE = [
@@ -59,7 +59,8 @@ TRUSTED_BASE = [
 ]
 ASSUMPTIONS = ["templates have typesGH 5-tuples on every node, no wildcard atoms", "hydrogen counts are non-negative",
                "hydrogen mode matches how the template is written (as in C03)",
-               "search threshold = the engine default 5000, no max_results, pre_filter off, strict_cc_count on (SynReactor defaults)"]
+               "engine configuration of SynReactor: no max_results, pre_filter off, strict_cc_count on (off inside PartialMatcher); the embedding "
+               "cap is a parameter (embed_threshold: not given = 5000, or any k >= 0)"]
 TESTED_NOT_PROVED = [
     "RDKit half: result serialisation/standardisation (graph_to_smi, Standardize.fit) maps observationally equal ITS graphs to equal "
     "strings — metamorphic oracle on the implementation: equal sets of strings across writings, strategies, repeated calls, histories "
@@ -71,23 +72,32 @@ TESTED_NOT_PROVED = [
     "state: the implementation's lazily cached fields, shared objects, module-level caches — histories in a fresh interpreter (both orders, "
     "input forms, result-neutral options, repeated reads, in-place renumbering of a shared template, emptied results); the model is a pure "
     "function",
-    "the partial-matching option (PartialMatcher engine, not modelled): metamorphic oracle only",
+    "the partial-matching option: the raw and kept matches of the PartialMatcher engine are modelled, compared on every run and proved "
+    "equivariant under renumbering; gluing a partial match (wildcard completion) is not modelled — the result sets of this option are "
+    "judged by the metamorphic oracle only",
+    "the embedding cap for the component-aware / fallback strategies under RE-ORDERING of the inputs: whether the cap is hit is evaluated on "
+    "every compared writing (side_okb_c), not proved invariant (under renumbering it is; for the exhaustive strategy it is proved for any rewriting)",
 ]
 LEVEL_TEXT = ("Machine-checked proof (Coq) over an executable model of the whole graph-level rule-application pipeline (SynRule preparation, "
-              "search strategies ALL/COMPONENT/BACKTRACK over a verified monomorphism enumerator, pruning by rule automorphisms, gluing, "
-              "_explicit_h). Proved for all inputs: (1) every stage and the result list commute literally with any injective renumbering of "
-              "substrate and template, for every strategy; (2) for every strategy the SET of glued ITS graphs is invariant under arbitrary "
-              "rewriting of both inputs (renumbering plus any re-ordering of atoms, bonds and bond orientation) — raw match sets coincide, "
-              "the glue depends only on the graphs as functions and on the match as a set of pairs, matches related by a rule automorphism "
-              "glue to the same ITS, pruning keeps one match of every class — from the template ITS to its_list in implicit-hydrogen mode "
-              "and, for hydrogen-free templates, in the default configuration (where the _explicit_h stage is shown to be the identity); "
-              "(3) component-aware matches and results are exhaustive matches / results, BACKTRACK returns the COMPONENT result whenever "
-              "that is non-empty. Every premise about the two writings is a boolean that the run function evaluates on each compared "
-              "writing of each case (well-formedness and threshold premises, and 'the other writing is the base renumbered and "
-              "re-ordered', with renumberings found on the graphs the implementation parsed). The model is tied to the Python code on "
-              "every run by comparing, per writing and strategy, match counts and the multiset of glued ITS graphs; the RDKit "
-              "serialisation, patterns with explicit X-H bonds, explicit-hydrogen templates in the default mode and the partial-matching "
-              "engine are covered by the correspondence and a metamorphic oracle with histories, not by proof.")
+              "search strategies ALL/COMPONENT/BACKTRACK over a verified monomorphism enumerator, the embedding cap embed_threshold as a parameter, "
+              "the PartialMatcher engine of partial=True, pruning by rule automorphisms, gluing, _explicit_h). Proved for all inputs AND EVERY "
+              "EMBEDDING CAP: (1) every stage and the result list commute literally with any injective renumbering of substrate and template, "
+              "for every strategy (also the raw and kept matches of the partial-matching engine); (2) for every strategy the SET of glued ITS "
+              "graphs is invariant under arbitrary rewriting of both inputs (renumbering plus any re-ordering of atoms, bonds and bond "
+              "orientation) — raw match sets coincide, the glue depends only on the graphs as functions and on the match as a set of pairs, "
+              "matches related by a rule automorphism glue to the same ITS, pruning keeps one match of every class — from the template ITS to "
+              "its_list in implicit-hydrogen mode and, for hydrogen-free templates, in the default configuration (where the _explicit_h stage "
+              "is shown to be the identity); for the exhaustive strategy with no premise about the cap at all (a capped search answers with "
+              "everything or nothing, never a truncated list, and whether it is capped does not depend on the writing); (3) component-aware "
+              "matches and results are exhaustive matches / results when neither search is capped, BACKTRACK returns the COMPONENT result "
+              "whenever that is non-empty. Refuted with witnesses (code kept, known findings): BACKTRACK = COMPONENT on the explicit-hydrogen "
+              "path; COMPONENT within EXHAUSTIVE when a non-default cap empties the exhaustive search only. Every premise about the two "
+              "writings is a boolean that the run function evaluates on each compared writing of each case (well-formedness and cap "
+              "premises, and 'the other writing is the base renumbered and re-ordered', with renumberings found on the graphs the "
+              "implementation parsed). The model is tied to the Python code on every run by comparing, per writing and strategy, match counts "
+              "and the multiset of glued ITS graphs (also under non-default caps around the number of embeddings); the RDKit serialisation, "
+              "patterns with explicit X-H bonds, explicit-hydrogen templates in the default mode and the gluing of partial matches are covered "
+              "by the correspondence and a metamorphic oracle with histories, not by proof.")
 LEVEL_NOTE = ("Trusted: Coq kernel + vm_compute; the models and encoders; VF2 and RDKit contracts (monitored, not proved). Imports, read-only: "
               "C03 glue and preparation lemmas (proof/C03_Proof.v, C03_Glue.v, C03_Iso.v, C03_Backward.v, C03_Default.v), C06 strategy "
               "specification (lib/C06_Spec.v, proof/C06_*.v), C11 pruning completeness (proof/C11_Dedup.v).")
@@ -220,7 +230,7 @@ def impl(case):
     if pre is not None and ("error" in pre or "outside" in pre):
         return ["SKIP"]
     if case.get("mode") in PARTIAL_MODES:
-        return ["SKIP"]
+        return _impl_partial(case)
     mode = case.get("mode", "E")
     thr = (case.get("opts") or {}).get("embed_threshold")
     out = []
@@ -245,7 +255,40 @@ def impl(case):
         out.append([K.rc_obs(first.rule.rc.raw, mode != "I"), 1 if first.flag else 0, K.mol_obs(pat), prem, per])
     # second component: every compared writing is a rewriting of the base in the sense of the theorems (the model evaluates
     # rewriting_okb on the renumberings found at generation time; expected: all 1)
-    return [out, [1] * len(out)]
+    # third component: the cap-free premises (side_okb0, or: the pattern keeps explicit X-H bonds) hold on every compared writing
+    return [out, [1] * len(out), [1] * len(out)]
+
+
+def _impl_partial(case):
+    """SynReactor(partial=True): per compared writing [explicit-H flag, pattern, per strategy [#raw partial matches, #kept by the
+    symmetry pruning, the raw matches as a multiset of sets of pairs]]; gluing with wildcard completion is not modelled"""
+    from synkit.Graph.Hyrogen._misc import h_to_implicit, has_XH
+    from ..tok import S
+    out = []
+    keep = set(_model_variants(case))
+    for i, v in enumerate(case["variants"]):
+        if i not in keep:
+            continue
+        per, first = [], None
+        for st in case["strategies"]:
+            try:
+                rec = _run_memo(case, v, st)
+            except ValueError:          # PartialMatcher: "Pattern graph has no components."
+                per.append([-1])
+                continue
+            first = first or rec
+            if (case.get("opts") or {}).get("embed_threshold"):
+                # max_results = embed_threshold / 100: WHICH matches are kept depends on VF2's order; only their number is compared
+                per.append([len(rec.raw), [], []])
+            else:
+                per.append([len(rec.raw), len(rec.mappings), S([S([[int(a), int(b)] for a, b in m.items()]) for m in rec.raw])])
+        if first is None:
+            out.append([-1])
+            continue
+        left = first.rule.left.raw
+        pat = h_to_implicit(left) if has_XH(left) else left
+        out.append([1 if first.flag else 0, K.mol_obs(pat), per])
+    return out
 
 
 def _embedding_counts(host, pat):
@@ -424,9 +467,15 @@ def coq_case(case):
     pre = case.get("pre")
     if pre is None:
         pre = prepare(case)["pre"]
-    if "error" in pre or "outside" in pre or pre.get("big") or case.get("mode") in PARTIAL_MODES:
+    if "error" in pre or "outside" in pre or pre.get("big"):
         return None
     mode = case.get("mode", "E")
+    thr = (case.get("opts") or {}).get("embed_threshold")
+    cthr = "None" if thr is None else "(Some %s)" % K.cN(int(thr))
+    if mode in PARTIAL_MODES:
+        vs = K.cl(["(%s, %s)" % (_c_host(pre["vs"][i][0]), _c_tpl(pre["vs"][i][1])) for i in _model_variants(case)])
+        return "run_c05p %s %s %s %s %s" % (cthr, K.cb(case.get("invert", False)), K.cb(mode == "P"),
+                                           K.cl([K.cN(STRATS[s_]) for s_ in case["strategies"]]), vs)
     maps = pre.get("maps") or [None] * len(_model_variants(case))
 
     def cmap(f):
@@ -437,8 +486,7 @@ def coq_case(case):
         pi, sg = m if m is not None else ([[1, 1], [1, 1]], [])
         ws.append("(%s, %s, %s, %s)" % (_c_host(h), _c_tpl(t), cmap(pi), cmap(sg)))
     strats = K.cl([K.cN(STRATS[s]) for s in case["strategies"]])
-    thr = (case.get("opts") or {}).get("embed_threshold")
-    return "run_c05t %s %s %s %s %s %s" % ("None" if thr is None else "(Some %s)" % K.cN(int(thr)), K.cb(case.get("invert", False)),
+    return "run_c05t %s %s %s %s %s %s" % (cthr, K.cb(case.get("invert", False)),
                                           K.cb(mode == "I"), K.cb(mode == "E"), strats, K.cl(ws))
 
 
@@ -667,6 +715,14 @@ def _oracle(case):
                      % (st, v["v"], v["sub"], v["rsmi"], type(e).__name__, str(e)[:80], base["sub"], base["rsmi"]))
                 return fails
     hostb = obs[(0, strategies[0])]["rec"].host
+    capped_partial = case.get("mode") in PARTIAL_MODES and bool((case.get("opts") or {}).get("embed_threshold"))
+    if capped_partial:
+        # known finding: SynReactor(partial=True, embed_threshold=k) limits the engine to the first k/100 matches in VF2 order
+        def fail(clause, detail, sub=None, _f=fail):          # noqa: F811
+            if clause.startswith("invariant-") and clause != "invariant-raises":
+                fails.append(dict(clause=clause, key="partial-capped:invariant-rewriting", detail=detail))
+            else:
+                _f(clause, detail)
     for i, v in enumerate(case["variants"]):
         if i == 0:
             continue
@@ -686,7 +742,7 @@ def _oracle(case):
                      % (st, v["v"], v["sub"], v["rsmi"], sum(map(len, b["iso"].values())), sum(map(len, a["iso"].values()))))
     # strategies
     for i, v in enumerate(case["variants"]):
-        if not {"all", "comp", "bt"} <= set(strategies):
+        if not {"all", "comp", "bt"} <= set(strategies) or capped_partial:
             break
         A, C, B = obs[(i, "all")], obs[(i, "comp")], obs[(i, "bt")]
         if A["err"] or C["err"] or B["err"]:
@@ -759,6 +815,11 @@ def _ok_obs(obs):
 
 
 def nontrivial(case, obs):
+    if case.get("mode") in PARTIAL_MODES:
+        try:
+            return obs[0][2][0][0] >= 2
+        except Exception:
+            return False
     if not _ok_obs(obs) or len(obs) < 2:
         return False
     per = obs[0][0][4]          # obs = [per-writing observables, rewriting flags]; base writing first
@@ -773,6 +834,9 @@ def distribution(cases, obss):
         pre = c.get("pre") or {}
         if pre.get("big"):
             d["big_oracle_only"] += 1
+        if c.get("mode") in PARTIAL_MODES:
+            d["partial_mode"] = d.get("partial_mode", 0) + 1
+            continue
         if not _ok_obs(o):
             d["skipped"] += 1
             continue
@@ -878,7 +942,7 @@ def gen_cases(tier, rng):
     for c in cases:
         c["trim"] = 2500 if tier == "quick" else 10000
     cases = prepare_all(cases)
-    cases = cases + threshold_cases(cases, rng, 3 if tier == "quick" else 5)
+    cases = cases + threshold_cases(cases, rng, 3 if tier == "quick" else 5) + partial_cap_cases(cases, rng)
     # longest first: the pool hands out the cases in order, so an expensive case at the end of the list would run alone while
     # every other worker is idle (on a loaded machine that one case decided the wall time)
     cases.sort(key=lambda c: -_impl_cost(c))
@@ -897,6 +961,23 @@ def _impl_cost(c):
 THR_RULES = ("bromination-bare", "suzuki-bare", "metathesis-bare", "halogen-exchange-bare", "dimerisation-bare", "aldol-bare",
              "tishchenko-implicit", "diels-alder:", "halohydrin-closure", "hydrolysis-explicit", "sn2-explicit", "amine-double-abstraction",
              "three-component", "single-symmetric", "ester-exchange")
+
+
+def partial_cap_cases(cases, rng):
+    """SynReactor(partial=True, embed_threshold=k): the reactor also derives max_results = k / 100 (first matches in VF2 order).
+    The number of raw matches is compared with the model; differences between writings are the known finding
+    partial-capped:invariant-rewriting."""
+    out = []
+    for c in cases:
+        pre = c.get("pre") or {}
+        if c.get("mode") not in PARTIAL_MODES or "cost" not in pre or pre.get("big") or c.get("opts"):
+            continue
+        k = rng.choice([100, 150, 250, 400])
+        q = {a: b for a, b in c.items() if a != "seq"}
+        q["opts"] = dict(embed_threshold=k)
+        q["name"] = "%s:thr=%d" % (c["name"], k)
+        out.append(q)
+    return out
 
 
 def threshold_cases(cases, rng, per_rule):
